@@ -239,27 +239,49 @@ type snap struct {
 	Names string `json:"names"` // recorded metric names, sorted, comma separated
 }
 
-func namesOf(v reflect.Value, out map[string]bool) {
+// namesOf collects the metric names an object has recorded as decoded from its unexported bookkeeping (a
+// map[string]bool per level in the code as it stands).  It returns false when a level keeps that bookkeeping in
+// another shape (a refactoring may do so freely): the snapshot then says "~" (not readable) and the specifications
+// fall back to what the exported fields tell.
+func namesOf(v reflect.Value, out map[string]bool) (readable bool) {
 	if v.Kind() == reflect.Ptr {
 		if v.IsNil() {
-			return
+			return true
 		}
 		v = v.Elem()
 	}
+	if v.Kind() != reflect.Struct {
+		return false
+	}
 	t := v.Type()
+	readable = true
+	found := false
 	for i := 0; i < t.NumField(); i++ {
 		f := t.Field(i)
-		if f.Name == "names" {
-			m := v.Field(i)
+		if f.Anonymous {
+			if !namesOf(v.Field(i), out) {
+				readable = false
+			}
+			continue
+		}
+		if f.IsExported() {
+			continue
+		}
+		// the bookkeeping field: an unexported map from string to bool, whatever its name
+		m := v.Field(i)
+		if m.Kind() == reflect.Map && m.Type().Key().Kind() == reflect.String && m.Type().Elem().Kind() == reflect.Bool {
+			if found {
+				return false // two candidates: cannot tell which one it is
+			}
+			found = true
 			for _, k := range m.MapKeys() {
 				if m.MapIndex(k).Bool() {
 					out[k.String()] = true
 				}
 			}
-		} else if f.Anonymous {
-			namesOf(v.Field(i), out)
 		}
 	}
+	return readable && found
 }
 
 func (h *handle) snapshot() snap {
@@ -322,13 +344,16 @@ func (h *handle) snapshot() snap {
 		}
 		s.Ver = v3VerLabel(ver)
 	}
-	namesOf(reflect.ValueOf(obj), names)
+	readable := namesOf(reflect.ValueOf(obj), names)
 	nl := make([]string, 0, len(names))
 	for n := range names {
 		nl = append(nl, n)
 	}
 	sort.Strings(nl)
 	s.F, s.Names = strings.Join(codes, ","), strings.Join(nl, ",")
+	if !readable {
+		s.Names = "~"
+	}
 	return s
 }
 
